@@ -155,6 +155,16 @@ Theorem c14_collector_waits_for_live_workers c s i : In c [1; 2; 3] ->
 Proof. exact (collector_waits_for_live_workers c s i). Qed.
 Print Assumptions c14_collector_waits_for_live_workers.
 
+(** "within the 5-second upstream timeout": whatever the caller's context (no
+    deadline, or any time left on it - 1 s, 30 s, an hour), the context a helper
+    hands to its upstream expires [queryTimeout] = 5 s after its creation, never
+    later. That the code does this is checked on every run by reading the
+    deadline of the context each upstream call received. *)
+Theorem c14_upstream_deadline_bound (caller : option Z) :
+  upstream_deadline caller = forward_query_timeout /\ (upstream_deadline caller <= 5000000000)%Z.
+Proof. exact (upstream_deadline_bound caller). Qed.
+Print Assumptions c14_upstream_deadline_bound.
+
 (** Non-vacuity. Concurrency 9 on a list of 2 starting at 1: three queries to
     positions 1, 0, 1; SERVFAIL, an error, then NXDOMAIN, then NOERROR arrive:
     NXDOMAIN (the first good one) is returned. *)
